@@ -20,8 +20,12 @@
 (*   InvFirstStop  the run ends at the FIRST state that satisfies a         *)
 (*                 criterion: no earlier trajectory state satisfied one     *)
 (*   InvCounts     nit = number of full steps, time = start + sum of steps  *)
+(*   InvMaxit      a run not ended by its stop time took exactly `maxit`    *)
+(*                 steps, whatever the stamp of the field it started from   *)
 (* Teeth: a loop that takes at most one snapshot per iteration (the pinned  *)
-(* defect D01, `SaveOnePerIter` of Driver.tla) violates InvNoneMissed.      *)
+(* defect D01, `SaveOnePerIter` of Driver.tla) violates InvNoneMissed; an   *)
+(* iteration limit compared with the cumulative count (seeds C07e / C07f)   *)
+(* violates InvMaxit.                                                       *)
 (***************************************************************************)
 EXTENDS Integers, Sequences
 
@@ -57,12 +61,19 @@ VARIABLES
   \* @type: Seq(Int);
   traj,
   \* @type: Bool;
-  onePerIter
+  onePerIter,
+  \* @type: Int;
+  it0,
+  \* @type: Bool;
+  maxitOnTotal
 
-vars == <<t0, s1, s2, s3, ns, hasT, T, hasM, M, pc, t, nit, isave, res, traj, onePerIter>>
+vars == <<t0, s1, s2, s3, ns, hasT, T, hasM, M, pc, t, nit, isave, res, traj, onePerIter, it0, maxitOnTotal>>
 
 TS(k) == IF k = 1 THEN s1 ELSE IF k = 2 THEN s2 ELSE s3
-CheckEnd(tt, n) == (hasT /\ tt >= T) \/ (hasM /\ n >= M)
+(* restart(f, ...) continues the numbering of the field it is given: itstart = max(f.it, 0); solve() starts at 0.
+   The iteration limit counts the steps of THIS call (nit), not the cumulative number *)
+ItStart == IF it0 > 0 THEN it0 ELSE 0
+CheckEnd(tt, n) == (hasT /\ tt >= T) \/ (hasM /\ (IF maxitOnTotal THEN ItStart + n ELSE n) >= M)
 
 (* the caller's arguments: anything admissible *)
 Args == /\ t0 \in Int /\ s1 \in Int /\ s2 \in Int /\ s3 \in Int /\ ns \in 0..3
@@ -70,11 +81,13 @@ Args == /\ t0 \in Int /\ s1 \in Int /\ s2 \in Int /\ s3 \in Int /\ ns \in 0..3
         /\ hasT \in BOOLEAN /\ T \in Int /\ hasM \in BOOLEAN /\ M \in Int /\ M >= 0
         /\ (hasT \/ hasM)                                          \* otherwise the code raises "missing stopping criteria"
         /\ (ns > 0 => hasT)                                        \* the default stop time is the last save time, unless given
+        /\ it0 \in Int /\ it0 >= -1                                \* the stamp of the starting field (-1: a user's field; solve: ignored = 0)
 Init0 == /\ Args /\ pc = "pre" /\ t = t0 /\ nit = 0 /\ isave = 0 /\ res = <<>> /\ traj = <<t0>>
-Init == Init0 /\ onePerIter = FALSE
-InitBad == Init0 /\ onePerIter = TRUE
+Init == Init0 /\ onePerIter = FALSE /\ maxitOnTotal = FALSE
+InitBad == Init0 /\ onePerIter = TRUE /\ maxitOnTotal = FALSE
+InitBadMaxit == Init0 /\ onePerIter = FALSE /\ maxitOnTotal = TRUE
 
-Rec(k, room) == [ts |-> TS(k), it |-> nit, src |-> t, room |-> room]
+Rec(k, room) == [ts |-> TS(k), it |-> ItStart + nit, src |-> t, room |-> room]
 (* before the loop: requested times before the start are skipped, one equal to the start is the initial state itself *)
 Pre == /\ pc = "pre"
        /\ LET Handled(k) == k <= ns /\ TS(k) <= t0
@@ -84,7 +97,7 @@ Pre == /\ pc = "pre"
           IN /\ res' = r3
              /\ isave' = (IF Handled(1) THEN 1 ELSE 0) + (IF Handled(2) THEN 1 ELSE 0) + (IF Handled(3) THEN 1 ELSE 0)
        /\ pc' = IF CheckEnd(t0, 0) THEN "done" ELSE "loop"
-       /\ UNCHANGED <<t0, s1, s2, s3, ns, hasT, T, hasM, M, t, nit, traj, onePerIter>>
+       /\ UNCHANGED <<t0, s1, s2, s3, ns, hasT, T, hasM, M, t, nit, traj, onePerIter, it0, maxitOnTotal>>
 
 (* one iteration with the step d the space operator answers: every save time reached by this step, then the full step *)
 Iter(d) ==
@@ -97,10 +110,10 @@ Iter(d) ==
          n  == (IF Take(1) THEN 1 ELSE 0) + (IF Take(2) THEN 1 ELSE 0) + (IF Take(3) THEN 1 ELSE 0)
          stop == CheckEnd(t + d, nit + 1)
      IN /\ isave' = isave + n
-        /\ res' = IF stop /\ r3 = <<>> THEN <<[ts |-> t + d, it |-> nit + 1, src |-> t + d, room |-> 0]>> ELSE r3
+        /\ res' = IF stop /\ r3 = <<>> THEN <<[ts |-> t + d, it |-> ItStart + nit + 1, src |-> t + d, room |-> 0]>> ELSE r3
         /\ pc' = IF stop THEN "done" ELSE "loop"
   /\ t' = t + d /\ nit' = nit + 1 /\ traj' = Append(traj, t + d)
-  /\ UNCHANGED <<t0, s1, s2, s3, ns, hasT, T, hasM, M, onePerIter>>
+  /\ UNCHANGED <<t0, s1, s2, s3, ns, hasT, T, hasM, M, onePerIter, it0, maxitOnTotal>>
 
 Next == Pre \/ (\E d \in Int : Iter(d)) \/ (pc = "done" /\ UNCHANGED vars)
 
@@ -110,12 +123,15 @@ FinalOnly == Len(res) = 1 /\ res[1].room = 0 /\ res[1].src = res[1].ts /\ ~Reque
 InvSnapshots ==
   FinalOnly \/
   /\ \A i \in DOMAIN res : /\ Requested(res[i].ts) /\ res[i].ts >= t0
-                          /\ res[i].it >= 0 /\ res[i].it < Len(traj) /\ traj[res[i].it + 1] = res[i].src      \* stamp = steps before
+                          /\ res[i].it >= ItStart /\ res[i].it - ItStart < Len(traj)
+                          /\ traj[res[i].it - ItStart + 1] = res[i].src              \* stamp = numbering of the start + steps before
                           /\ res[i].src <= res[i].ts /\ res[i].ts <= res[i].src + res[i].room                 \* a forward step within d
   /\ \A i, j \in DOMAIN res : i < j => res[i].ts < res[j].ts                                                  \* in order, once each
 InvNoneMissed == (pc # "pre") => \A k \in 1..3 : (k <= ns /\ TS(k) >= t0 /\ TS(k) <= t) => \E i \in DOMAIN res : res[i].ts = TS(k)
 InvFirstStop == /\ (pc = "done") => CheckEnd(t, nit)
                 /\ \A n \in DOMAIN traj : n < Len(traj) => ~CheckEnd(traj[n], n - 1)
+(* a run that was not ended by its stop time took exactly the number of steps asked for, whatever the stamp it started from *)
+InvMaxit == (pc = "done" /\ ~(hasT /\ t >= T)) => (hasM /\ nit = M)
 InvCounts == Len(traj) = nit + 1 /\ traj[Len(traj)] = t /\ traj[1] = t0 /\ \A n \in DOMAIN traj : n > 1 => traj[n] > traj[n - 1]
 (* non-vacuity: three snapshots in one run, two of them in one iteration, are reachable (these must be REFUTED) *)
 InvVacThree == ~(Len(res) = 3 /\ pc = "done")
